@@ -6,9 +6,11 @@ import (
 	"fmt"
 	"os"
 	"path/filepath"
+	"runtime/debug"
 	"time"
 
 	"github.com/graphql-go/graphql/language/ast"
+	"github.com/graphql-go/graphql/language/parser"
 
 	"verif/internal/core"
 	"verif/internal/gen/gramdoc"
@@ -60,6 +62,7 @@ func repoDir() string {
 func run(c *core.Child) {
 	// quick: 8 x 2500 = 2*10^4 documents; thorough: 16 x 62500 = 10^6
 	n := c.Scale(2500, 62500)
+	debug.SetGCPercent(400) // allocation-heavy library code; the check's verdicts do not depend on it
 	if c.Batch == 0 {
 		runCorpus(c)
 	}
@@ -111,8 +114,14 @@ func runCorpus(c *core.Child) {
 
 func buildCase(r *core.RNG) *kase {
 	k := &kase{}
-	opts := gramdoc.Options{RichValues: r.Chance(85), MaxDepth: 4, MaxWidth: 4, MaxDefs: r.Range(1, 5)}
-	if r.Chance(15) {
+	// small documents mostly (the library printer is quadratic in depth: it
+	// converts every edited subtree to maps again at each level), a tail of
+	// larger ones
+	opts := gramdoc.Options{RichValues: r.Chance(85), MaxDepth: 3, MaxWidth: 3, MaxDefs: r.Range(1, 3)}
+	switch {
+	case r.Chance(12):
+		opts.MaxDepth, opts.MaxWidth, opts.MaxDefs = 4, 4, r.Range(1, 5)
+	case r.Chance(5):
 		opts.MaxDepth, opts.MaxWidth = r.Range(2, 6), r.Range(2, 6)
 	}
 	var doc *nast.Document
@@ -293,11 +302,38 @@ func caseDetail(k *kase, v *verdict, extra map[string]interface{}) map[string]in
 	return d
 }
 
+// defectRecords caps the violation records written per defect-class
+// signature in one child: the classes are hit thousands of times per run and
+// would otherwise use up the driver's per-child record budget (40), hiding any
+// other signature. Every hit is still counted in the feature histogram.
+var defectRecords = map[string]int{}
+
+func violation(c *core.Child, sig, msg string, detail interface{}) {
+	c.Feature("violation:" + sig)
+	if len(sig) > 7 && sig[:7] == "defect:" {
+		defectRecords[sig]++
+		if defectRecords[sig] > 3 {
+			return
+		}
+	}
+	c.Violation(sig, msg, detail)
+}
+
 func checkCase(c *core.Child, r *core.RNG, k *kase) {
-	doc, err, pv := parseDoc(k.src)
+	// the AST with and without locations / source back-pointers
+	var po parser.ParseOptions
+	switch w := r.Intn(100); {
+	case w < 8:
+		po.NoLocation = true
+		c.Feature("parse-options:NoLocation")
+	case w < 15:
+		po.NoSource = true
+		c.Feature("parse-options:NoSource")
+	}
+	doc, err, pv := parseDocOpts(k.src, po)
 	if pv != nil {
 		// not this property's subject (C09), but never silently dropped
-		c.Violation(pv.sig, "parser panicked on the input text: "+pv.msg, caseDetail(k, pv, nil))
+		violation(c, pv.sig, "parser panicked on the input text: "+pv.msg, caseDetail(k, pv, nil))
 		return
 	}
 	if err != nil {
@@ -309,7 +345,7 @@ func checkCase(c *core.Child, r *core.RNG, k *kase) {
 		default:
 			// a generated dialect document the parser refuses: a generator or a
 			// parser defect, to be triaged (C03 owns the parser side)
-			c.Violation("input:rejected", "the library parser rejects a generated document: "+firstLine(err.Error()), caseDetail(k, nil, map[string]interface{}{"note": err.Error()}))
+			violation(c, "input:rejected", "the library parser rejects a generated document: "+firstLine(err.Error()), caseDetail(k, nil, map[string]interface{}{"note": err.Error()}))
 		}
 		return
 	}
@@ -324,7 +360,7 @@ func checkCase(c *core.Child, r *core.RNG, k *kase) {
 	v := laws(c, doc, nil)
 	if len(a.hazards) == 0 {
 		if v != nil {
-			c.Violation(v.sig, v.msg, caseDetail(k, v, nil))
+			violation(c, v.sig, v.msg, caseDetail(k, v, nil))
 			return
 		}
 		c.Sample(k.origin, clip(k.src, 600))
@@ -338,16 +374,16 @@ func checkCase(c *core.Child, r *core.RNG, k *kase) {
 		}
 		if v != nil {
 			c.Feature("description-hazard:law-failed:" + class)
-			c.Violation("defect:description-"+class, "a description the printer cannot write as a raw block string ("+class+") breaks the round trip: "+v.msg,
+			violation(c, "defect:description-"+class, "a description the printer cannot write as a raw block string ("+class+") breaks the round trip: "+v.msg,
 				caseDetail(k, v, map[string]interface{}{"hazardous_descriptions": hz}))
 		} else {
 			c.Feature("description-hazard:laws-held:" + class)
 		}
 		// Relaxation of the defect class: with the hazardous descriptions
 		// neutralised, everything else about the document must round-trip.
-		doc2, err2, pv2 := parseDoc(k.src)
+		doc2, err2, pv2 := parseDocOpts(k.src, po)
 		if pv2 != nil || err2 != nil {
-			c.Violation("parse:unstable", "the same text did not parse the second time", caseDetail(k, pv2, nil))
+			violation(c, "parse:unstable", "the same text did not parse the second time", caseDetail(k, pv2, nil))
 			return
 		}
 		a2 := analyse(conv(doc2), k.src)
@@ -357,7 +393,7 @@ func checkCase(c *core.Child, r *core.RNG, k *kase) {
 		doc = doc2
 		a = analyse(conv(doc), k.src)
 		if v2 := laws(c, doc, nil); v2 != nil {
-			c.Violation(v2.sig, "with the hazardous descriptions neutralised: "+v2.msg, caseDetail(k, v2, map[string]interface{}{"hazardous_descriptions": hz, "note": "descriptions of the listed classes were replaced by the text `neutralised` in the AST before printing"}))
+			violation(c, v2.sig, "with the hazardous descriptions neutralised: "+v2.msg, caseDetail(k, v2, map[string]interface{}{"hazardous_descriptions": hz, "note": "descriptions of the listed classes were replaced by the text `neutralised` in the AST before printing"}))
 			return
 		}
 	}
@@ -386,7 +422,7 @@ func subNodes(c *core.Child, r *core.RNG, k *kase, a *analysis) {
 		w := wrapperFor(g.Src)
 		c.Feature("sub-node:" + w.name)
 		if v := laws(c, g.Src, w); v != nil {
-			c.Violation(v.sig, "sub-node handed to Print directly: "+v.msg, caseDetail(k, v, map[string]interface{}{"sub_node": g.GoType}))
+			violation(c, v.sig, "sub-node handed to Print directly: "+v.msg, caseDetail(k, v, map[string]interface{}{"sub_node": g.GoType}))
 			return
 		}
 	}
